@@ -536,7 +536,13 @@ def wl_cuckoo(ctx, rng, case):
     if large:
         cfg.capacity, cfg.bucket_size, cfg.finger_size, cfg.max_swaps = rng.choice([10000, 16500, 33000]), rng.choice([2, 4]), 4, 50
         ctx.count("large_cuckoo_tables")
-    keys = ck.gen_keys(rng, cfg, rng.randint(3, 14) if not large else 300)
+    crowded = not large and case.index % 5 == 2
+    if crowded:
+        # a crowded little table with one or two kicks per insertion: insertions and expansions that FAIL (and are rolled back) on the way
+        cfg.capacity, cfg.bucket_size, cfg.max_swaps = rng.choice([2, 3, 4, 8]), rng.choice([1, 1, 2]), rng.choice([1, 1, 2])
+        cfg.auto_expand = rng.random() < 0.8
+        ctx.count("crowded_cuckoo_tables")
+    keys = ck.gen_keys(rng, cfg, (rng.randint(3, 14) if not crowded else cfg.capacity * cfg.bucket_size + rng.randint(2, 6)) if not large else 300)
     if len(keys) < 2:
         return
     case.desc = cfg.desc()
@@ -566,6 +572,7 @@ def wl_cuckoo(ctx, rng, case):
                 if model.counts[fp] <= 0:
                     del model.counts[fp]
         except CuckooFilterFullError:
+            ctx.count("cuckoo_calls_that_failed_with_a_full_table")
             seen = f.check(kk)
             model.counts[fp] = int(seen)
             if not model.counts[fp]:
